@@ -446,15 +446,20 @@ func (bridge *ExprBridge) evaluateSimpleNumericExpression(expression string, dat
 // ContainsLikeOperator 检查表达式是否包含LIKE操作符
 func (bridge *ExprBridge) ContainsLikeOperator(expression string) bool {
 	// 简单检查是否包含LIKE关键字
-	upperExpr := strings.ToUpper(expression)
-	return strings.Contains(upperExpr, " LIKE ")
+	return likeOperatorRe.MatchString(expression)
 }
 
 // ContainsIsNullOperator 检查表达式是否包含IS NULL或IS NOT NULL操作符
 func (bridge *ExprBridge) ContainsIsNullOperator(expression string) bool {
-	upperExpr := strings.ToUpper(expression)
-	return strings.Contains(upperExpr, " IS NULL") || strings.Contains(upperExpr, " IS NOT NULL")
+	return isNullOperatorRe.MatchString(expression)
 }
+
+// Keyword case and the kind of whitespace around LIKE / IS [NOT] NULL do not
+// matter (select expressions reach the bridge in the statement's own spelling).
+var (
+	likeOperatorRe   = regexp.MustCompile(`(?i)\sLIKE\s`)
+	isNullOperatorRe = regexp.MustCompile(`(?i)\sIS\s+(?:NOT\s+)?NULL\b`)
+)
 
 // isFunctionCall 检查表达式是否是函数调用
 func (bridge *ExprBridge) isFunctionCall(expression string) bool {
@@ -494,7 +499,7 @@ func (bridge *ExprBridge) PreprocessLikeExpression(expression string) (string, e
 	// 使用正则表达式匹配LIKE模式
 	// 匹配: field LIKE 'pattern' 或 `field` LIKE 'pattern' (允许空模式)
 	// 支持反引号标识符和普通标识符
-	likePattern := `((?:` + "`" + `[^` + "`" + `]+` + "`" + `|\w+)(?:\.(?:` + "`" + `[^` + "`" + `]+` + "`" + `|\w+))*)\s+LIKE\s+'([^']*)'`
+	likePattern := `((?:` + "`" + `[^` + "`" + `]+` + "`" + `|\w+)(?:\.(?:` + "`" + `[^` + "`" + `]+` + "`" + `|\w+))*)\s+(?i:LIKE)\s+'([^']*)'`
 	re, err := regexp.Compile(likePattern)
 	if err != nil {
 		return expression, err
@@ -525,7 +530,7 @@ func (bridge *ExprBridge) PreprocessLikeExpression(expression string) (string, e
 // PreprocessIsNullExpression 预处理IS NULL和IS NOT NULL表达式，转换为expr-lang可理解的表达式
 func (bridge *ExprBridge) PreprocessIsNullExpression(expression string) (string, error) {
 	// 匹配复杂表达式的 IS NOT NULL 模式 (如函数调用)
-	complexNotNullPattern := `([A-Za-z_][A-Za-z0-9_]*\s*\([^)]*\))\s+IS\s+NOT\s+NULL`
+	complexNotNullPattern := `([A-Za-z_][A-Za-z0-9_]*\s*\([^)]*\))\s+(?i:IS\s+NOT\s+NULL)`
 	reComplexNotNull, err := regexp.Compile(complexNotNullPattern)
 	if err != nil {
 		return expression, err
@@ -535,7 +540,7 @@ func (bridge *ExprBridge) PreprocessIsNullExpression(expression string) (string,
 	result := reComplexNotNull.ReplaceAllString(expression, "is_not_null($1)")
 
 	// 匹配复杂表达式的 IS NULL 模式
-	complexNullPattern := `([A-Za-z_][A-Za-z0-9_]*\s*\([^)]*\))\s+IS\s+NULL`
+	complexNullPattern := `([A-Za-z_][A-Za-z0-9_]*\s*\([^)]*\))\s+(?i:IS\s+NULL)`
 	reComplexNull, err := regexp.Compile(complexNullPattern)
 	if err != nil {
 		return result, err
@@ -545,7 +550,7 @@ func (bridge *ExprBridge) PreprocessIsNullExpression(expression string) (string,
 	result = reComplexNull.ReplaceAllString(result, "is_null($1)")
 
 	// 匹配简单字段的 IS NOT NULL 模式 (必须在复杂表达式之后处理)
-	isNotNullPattern := `(\w+(?:\.\w+)*)\s+IS\s+NOT\s+NULL`
+	isNotNullPattern := `(\w+(?:\.\w+)*)\s+(?i:IS\s+NOT\s+NULL)`
 	reNotNull, err := regexp.Compile(isNotNullPattern)
 	if err != nil {
 		return result, err
@@ -555,7 +560,7 @@ func (bridge *ExprBridge) PreprocessIsNullExpression(expression string) (string,
 	result = reNotNull.ReplaceAllString(result, "$1 != nil")
 
 	// 匹配简单字段的 IS NULL 模式
-	isNullPattern := `(\w+(?:\.\w+)*)\s+IS\s+NULL`
+	isNullPattern := `(\w+(?:\.\w+)*)\s+(?i:IS\s+NULL)`
 	reNull, err := regexp.Compile(isNullPattern)
 	if err != nil {
 		return result, err
